@@ -731,30 +731,28 @@ async fn global_inner(
     let module_id = closure.function.name.clone();
 
     let vm = db.thread();
-    let v = vm
-        .call_thunk_top(&closure)
-        .await
-        .map(move |value| ExecuteValue {
-            id: module_id,
-            expr: (),
-            typ,
-            value,
-            metadata,
-        })
-        .map_err(Error::from)?;
+    let value = vm.call_thunk_top(&closure).await.map_err(Error::from)?;
 
-    let ExecuteValue {
-        id,
-        metadata,
-        typ,
-        value,
-        ..
-    } = if db.compiler_settings().run_io {
+    if db.compiler_settings().run_io {
+        // Loading a module whose value is an `IO` action runs the action when `run_io` is set
+        // (this is how a script given to `load_script`/`load_file` gets executed). The global must
+        // still hold the action itself and keep the type `IO a`: modules that import it were
+        // typechecked against that type, storing the action's result instead makes them call a
+        // value that is not a function (`Cannot call 0`).
         let vm = db.thread();
-        crate::compiler_pipeline::run_io(vm, v).await?
-    } else {
-        v
-    };
+        crate::compiler_pipeline::run_io(
+            vm,
+            ExecuteValue {
+                id: module_id.clone(),
+                expr: (),
+                typ: typ.clone(),
+                value: value.clone(),
+                metadata: metadata.clone(),
+            },
+        )
+        .await?;
+    }
+    let id = module_id;
 
     let vm = db.thread();
     let mut gc = vm.global_env().gc.lock().unwrap();
